@@ -137,7 +137,12 @@ impl C11 {
             }
         }
         // inputs that are not a complete zstd frame
-        let mut non_frames: Vec<(String, Vec<u8>)> = vec![("empty".into(), vec![])];
+        let mut non_frames: Vec<(String, Vec<u8>)> = vec![
+            ("empty".into(), vec![]),
+            ("the expanded container itself".into(), exp.clone()),
+            ("a bare version byte".into(), vec![1]),
+            ("a tiny literal container".into(), vec![1, 0, 3, b'a', b'b', b'c']),
+        ];
         if !looks_like_frame(f) {
             non_frames.push(("the file itself".into(), f.to_vec()));
         }
@@ -154,6 +159,49 @@ impl C11 {
             }
             non_frames.push(("frame without its last byte".into(), c[..c.len() - 1].to_vec()));
             non_frames.push(("frame without its magic".into(), c[4.min(c.len())..].to_vec()));
+        }
+        // frames with a damaged header (descriptor / content-size bytes): whatever zstd makes of them, the call
+        // must not panic, and Ok is acceptable only with the file itself
+        let mut damaged: Vec<(String, Vec<u8>)> = vec![];
+        // (bytes of a real frame are not flipped: zstd frames carry no checksum here, a changed payload decodes
+        // to a garbage container, about which no property promises anything)
+        for _ in 0..4 {
+            // magic, a frame header descriptor asking for a 1/2/4/8-byte content size, that size, then noise
+            let fcs_flag = r.below(4) as u8;
+            let fhd = (fcs_flag << 6) | 0x20 | (r.below(2) as u8) << 2;
+            let mut x = vec![0x28, 0xB5, 0x2F, 0xFD, fhd];
+            let n = [1usize, 2, 4, 8][fcs_flag as usize];
+            let fcs = match r.below(3) {
+                0 => vec![0xff; n],
+                1 => r.bytes(n),
+                _ => {
+                    let mut v = vec![0u8; n];
+                    v[n - 1] = 0x7f;
+                    v
+                }
+            };
+            x.extend_from_slice(&fcs);
+            let tail = r.usize_below(24);
+            x.extend(r.bytes(tail));
+            damaged.push((format!("magic + header announcing a {}-byte content size field {:02x?} + {} noise bytes", n, fcs, tail), x));
+        }
+        for (how, nf) in damaged {
+            ctx.count("evaluations");
+            ctx.count("damaged_frames");
+            match cur::zstd_decompress(&nf, size + 64) {
+                Out::Err(_) => {}
+                Out::Ok(v) if v[..] == f[..] => {}
+                other => {
+                    bad = true;
+                    ctx.violation(
+                        "damaged_frame_mishandled",
+                        &format!("damaged_frame_mishandled|{}", match &other { Out::Panic(s) => format!("panic|{}", s), _ => "ok_wrong_bytes".into() }),
+                        &format!("{} gave {} on {}", how, match &other { Out::Ok(v) => format!("Ok({} bytes, not the file)", v.len()), x => kind_of(x) }, label),
+                        json!({"label": label, "damaged": how}),
+                        &nf,
+                    );
+                }
+            }
         }
         for (how, nf) in non_frames {
             ctx.count("evaluations");
